@@ -10,6 +10,7 @@ CONSTANTS
   MaxResets = 1
   MaxByz = 1
   Variant = "code"
+  ProbeHeights = {}
   FullChainUpTo = 0
 INVARIANTS TypeOK
 PROPERTIES EventuallySynced
